@@ -16,6 +16,7 @@ the same call made first in a fresh process.
 """
 import json
 import os
+import re
 import sys
 
 sys.path.insert(0, os.path.join(os.path.dirname(os.path.abspath(__file__)), "..", "lib"))
@@ -153,7 +154,14 @@ def ordered_difference(a, b):
     return first_difference(a, b)
 
 
-def judge_call(part, evs, ref, hist, k, h, seedname, seed, phase):
+def position_of(g, seed):
+    if g is None:
+        return seed
+    m = re.search(r" position=(\d+)", g)
+    return int(m.group(1)) if m else seed
+
+
+def judge_call(part, evs, ref, hist, k, h, seedname, seed, phase, g_before=None, g_after=None):
     """call k of `hist` produced result hash h; compare with the fresh-process reference"""
     idx = hist[k]
     names = [evs[i][0] for i in hist]
@@ -170,6 +178,8 @@ def judge_call(part, evs, ref, hist, k, h, seedname, seed, phase):
         d = ordered_difference(ref[idx]["r"], got) if got is not None else ("<died>", None, None)
         memo[mkey] = (classify(ref[idx]["r"], got, full[k].get("what") if k < len(full) else None), d)
     what, d = memo[mkey]
+    if g_after is not None and position_of(g_after, seed) < position_of(g_before, seed):
+        what = "position-counter-wrap"      # the 32-bit counter wrapped inside this very call (known finding), however it shows
     part.outcome("differs:" + what)
     part.violation("%s:%s:after=%s:seed=%s" % (what, names[k], prev_sig(names[:k]), seedname),
                    "call %d (%s) of history %s from counter seed %s differs from the same call in a fresh process at %s: fresh=%s here=%s"
@@ -196,7 +206,8 @@ def judge(part, evs, ref, hist, seedname, seed, res, phase):
         if k >= len(calls):
             died(part, evs, hist, k, res.get("sig", res.get("exit")), seedname, seed, res.get("stderr"))
             break
-        judge_call(part, evs, ref, hist, k, calls[k]["h"], seedname, seed, phase)
+        judge_call(part, evs, ref, hist, k, calls[k]["h"], seedname, seed, phase,
+                   g_before=calls[k - 1]["g"] if k else None, g_after=calls[k]["g"])
 
 
 def seedclass(name):
@@ -256,7 +267,8 @@ def shard_bfs(args):
                 if "sig" in f:
                     died(part, evs, hist, len(h), f["sig"], seedname, seed, r.get("stderr"))
                     continue
-                judge_call(part, evs, ref, hist, len(h), f["h"], seedname, seed, "bfs")
+                judge_call(part, evs, ref, hist, len(h), f["h"], seedname, seed, "bfs",
+                           g_before=r["calls"][-1]["g"] if h else None, g_after=f["g"])
                 out.append((hist, f["g"]))
     res = part.result()
     res["states"] = out
